@@ -4,7 +4,7 @@
    [check_C18] on the operation code, and small tactics for parser inversion.
    Everything is over Z/N/lists and closed under the global context. *)
 From Coq Require Import FMapPositive.
-From MM Require Import Base.Num Base.GCGraph Check.C18 Proofs.CheckBase.
+From MM Require Import Base.Num Base.GCGraph Model.Graph Proofs.Graph Check.C18 Proofs.CheckBase.
 Local Open Scope Z_scope.
 
 (* ---------- first_false ---------- *)
@@ -166,6 +166,24 @@ Proof.
   apply pg_go_some in H. destruct H as [H _]. destruct H as (g' & -> & -> & L); [lia|lia|].
   cbn. unfold enc_graph. cbn. f_equal. lia.
 Qed.
+
+(* turn every parser equation in the context into the layout of the integers it consumed *)
+Ltac lay :=
+  repeat match goal with
+  | E : p_graph _ = Some _ |- _ => apply p_graph_some in E
+  | E : p_Zs _ = Some _ |- _ => apply p_Zs_layout in E
+  | E : pZ _ = Some _ |- _ => apply pZ_some in E
+  | E : plist_any p_Zs _ = Some _ |- _ => apply p_Zss_layout in E
+  end.
+
+Lemma graph_eqb_eq : forall a b, graph_eqb a b = true -> a = b.
+Proof.
+  induction a as [|x a IH]; intros [|y b] H; cbn in H; try discriminate; [reflexivity|].
+  apply andb_prop in H. destruct H as [H1 H2]. apply Ns_eqb_eq in H1. subst. f_equal. auto.
+Qed.
+
+(* replace the "argument after the call" graphs by the argument itself *)
+Ltac geq := repeat match goal with H : graph_eqb _ ?b = true |- _ => apply graph_eqb_eq in H; subst b end.
 
 (* ---------- ZsN / NsZ ---------- *)
 Lemma NsZ_ZsN : forall l, NsZ (ZsN l) = l.
